@@ -45,6 +45,8 @@ impl<const N: usize> Sodg<N> {
                 break;
             }
             let before: Vec<usize> = todo.drain().collect();
+            #[cfg(feature = "verif")]
+            let before = crate::verif::permuted(before);
             for v in before {
                 done.insert(v);
                 for e in &self.vertices.get(v).unwrap().edges {
